@@ -27,7 +27,14 @@ for m in muts:
         if os.path.exists('/verif/known_findings.json'):
             shutil.copy('/verif/known_findings.json', d)
         shutil.copytree('/repo', dst, ignore=shutil.ignore_patterns('.git'))
-        for ed in m['edits']:
+        if m.get('patch'):
+            # a variant kept as a patch (a confirmed seeded change under /verif/seeded): applied with patch(1), no git needed
+            r = subprocess.run(['patch', '-p1', '-s', '-i', os.path.join('/verif', m['patch'])], cwd=dst, capture_output=True, text=True)
+            if r.returncode != 0:
+                print(f"FAIL {m['id']}: patch does not apply: {r.stdout[:200]}{r.stderr[:200]}")
+                fails += 1
+                raise StopIteration
+        for ed in m.get('edits', []):
             p = os.path.join(dst, ed['file'])
             s = open(p).read()
             if ed['old'] not in s:
